@@ -40,3 +40,11 @@ claim("C16", "proof",
       "Lean theorems (a) over the destructor table of front/parser.y regenerated from the source text on every run: every heap-owning grammar symbol that bison can discard has a releasing destructor of the right type (listed exception: param_seq), values handed to the caller are not destructed, every grammar action takes charge of every owning value it pops; (b) over M-Ledger (malloc/free events of gc.c/object.c on top of M-Heap): over any history no double/invalid free, live blocks = sum over allocated cells, a collection frees exactly the blocks of the unreachable cells each once, gc_delete leaves nothing. Tied by translator (a) and by malloc/free-counting correspondence (b). Partial for the property as a whole: AST teardown, typechecker early returns and program/module/vm teardown are only observed by a seeded compile/run/dispose stream under ASan+LSan (testing)",
       "Lean kernel + propext/Classical.choice/Quot.sound, gen/parsertab.py + bison's XML report, harness shims, sanitizer runtimes",
       "Lean 4 finite-table decision over translator output; invariant induction for the ledger; malloc/free differential correspondence; sanitizer leak stream", "DESIGN.md §3 C16 + docs/DESIGN.add.C16.md")
+claim("C10", "proof",
+      "Lean theorems over tables REGENERATED from the C source on every run (constred.c/enumred.c clauses, typecheck.c typing rules, emit.c opcode selection, vmexec.c handlers, typed by clang): every folding clause is the same guarded typed C expression as the handler the emitter selects, hence folds to exactly the value the VM computes for ALL operand values, reports division by zero exactly where the VM raises it, and traps only on (MIN,-1) and out-of-range shifts; _partial + _counterexample for 4 pinned defects; whole-compiler literal-vs-variable correspondence ties translator and model",
+      "Lean kernel + standard axioms; gen/numtab.py + clang-14 AST; C semantics of Model/CExpr.lean; Lean Float opaque (float statements structural); &&/|| code shape hand-modelled",
+      "Lean 4 proof by decidable syntactic agreement lifted by a generic congruence lemma; translator; differential correspondence through the whole compiler", "DESIGN.md §3 C10")
+claim("C11", "proof",
+      "Lean theorems over the regenerated tables: every arithmetic/compare/bitwise/shift/conversion handler of vmexec.c equals Never.Num for all operand values; int/long are two's complement (BitVec) with truncating division; promotion matrix = join in int<long<float<double with the conversion on the lower operand; assignment and parameter matrices convert to the declared type (_partial/_counterexample for the pinned (int,double) cell); the emitter selects the operator's own handler (_partial/_counterexample: bool !=, enum compare); float handlers work in their own precision (structural); %d/%lld numeral proved, %.2f by correspondence",
+      "Lean kernel + standard axioms; gen/numtab.py + clang-14 AST; C semantics of Model/CExpr.lean; Lean Float opaque; Python oracle + glibc printf for the correspondence",
+      "Lean 4 proof (decide over generated finite tables + universally quantified BitVec lemmas); translator; differential correspondence through the whole compiler", "DESIGN.md §3 C11")
